@@ -137,7 +137,7 @@ Qed.
 
 Lemma continue_now V C p s p' s' r : continue V C p s = (p', s', r) -> now s' = now s.
 Proof.
-  destruct p; unfold continue, do_fail_a, do_ban; intros H; break_lets; pair_inv H; reflexivity.
+  destruct p; try (match goal with k : hkind |- _ => destruct k end); unfold continue, do_fail_a, do_ban; intros H; break_lets; pair_inv H; reflexivity.
 Qed.
 
 Lemma tstep_now_mono V C l s l' s' : tstep V C l s = (l', s') -> now s <= now s'.
@@ -181,7 +181,7 @@ Lemma continue_bans V C p s p' s' r : continue V C p s = (p', s', r) ->
    (exists n0, p = PCleanB n0 /\ bans s' = sweep n0 (bans s))) /\
   (forall n0, p' <> PCleanB n0).
 Proof.
-  destruct p; unfold continue, do_fail_a, do_ban; intros H; break_lets; pair_inv H; cbn;
+  destruct p; try (match goal with k : hkind |- _ => destruct k end); unfold continue, do_fail_a, do_ban; intros H; break_lets; pair_inv H; cbn;
     (split; [|intros n0 Hn; congruence]); eauto 6.
 Qed.
 
@@ -420,7 +420,7 @@ Qed.
 
 Lemma continue_bl V C p s p' s' r : continue V C p s = (p', s', r) -> bl s' = bl s /\ wl s' = wl s.
 Proof.
-  destruct p; unfold continue, do_fail_a, do_ban; intros H; break_lets; pair_inv H; cbn; auto.
+  destruct p; try (match goal with k : hkind |- _ => destruct k end); unfold continue, do_fail_a, do_ban; intros H; break_lets; pair_inv H; cbn; auto.
 Qed.
 
 (* list facts for the matching keys *)
@@ -633,9 +633,13 @@ Proof.
   intros H. cbn [start]. rewrite allowed_dec_current, H. eexists. reflexivity.
 Qed.
 
-Lemma gate_banned V C ip k s : is_banned s ip = true -> continue V C (PHs2 ip k) s = (PIdle, s, Some 1%N).
+(* gate 2 is evaluated for EVERY handshake message kind k (unknown id, first connection with any token, phase 1,
+   phase 2 on any connection): banned at arrival => refused, the whole shared state untouched *)
+Lemma gate_banned V C ip k s : skip_gate_p2 V = false ->
+  is_banned s ip = true -> continue V C (PHs2 ip k) s = (PIdle, s, Some 1%N).
 Proof.
-  intros H. cbn [continue]. unfold is_banned in *. rewrite (in_force_not_expired _ _ _ H), H. reflexivity.
+  intros Hv H. cbn [continue]. rewrite Hv. cbn [andb]. unfold is_banned in *.
+  rewrite (in_force_not_expired _ _ _ H), H. reflexivity.
 Qed.
 
 (* ------------------------------------------------------------------------------------------- *)
@@ -700,9 +704,13 @@ Proof.
     + exfalso. destruct (continue V C (PHs3 ip0 k) s) as [[p1 s1] r1] eqn:Es. injection Hs as <- <-.
       cbn [continue] in Es. break_lets; pair_inv Es; cbn in H1; congruence.
     + exfalso. destruct (continue V C (PHsAuth ip0 k) s) as [[p1 s1] r1] eqn:Es. injection Hs as <- <-.
-      cbn [continue] in Es. destruct (hk_fails k).
-      * destruct (do_fail_a_pc _ _ _ _ _ _ _ _ Es) as [Hb _]. congruence.
-      * pair_inv Es. destruct (anon_resets V); cbn in H1; congruence.
+      cbn [continue] in Es.
+      assert (Hb : bans s1 = bans s).
+      { destruct k; cbn [auth_fails] in Es;
+          repeat match type of Es with context [if ?x then _ else _] => destruct x end;
+          first [ destruct (do_fail_a_pc _ _ _ _ _ _ _ _ Es) as [Hb _]; rewrite Hb; reflexivity
+                | pair_inv Es; reflexivity ]. }
+      congruence.
 Qed.
 
 (* a RecordFailure(ip) is left pending a ban exactly when the counters say so *)
@@ -893,7 +901,7 @@ Qed.
    /28 entry is met before the permanent /27 entry containing it (map order 1) - the address is let through although
    an entry covering it is in force *)
 Definition first_match_variant (o : N) : variant :=
-  {| cond_unban := true; keep_stronger := true; anon_resets := false; first_match := o |}.
+  {| cond_unban := true; keep_stronger := true; anon_resets := false; skip_gate_p2 := false; first_match := o |}.
 Definition wit6a : list lo := [LProg PIdle [CBlAdd 1002 0; CBlAdd 40 70; CAllowed 40] []; LClock [150]].
 Definition wit6b : list lo := [LProg PIdle [CBlAdd 2001 0; CBlAdd 1002 70; CAllowed 40] []; LClock [150]].
 Lemma first_match_lookup_refuted :
@@ -930,3 +938,26 @@ Proof.
   intros H. cbn [continue] in H. destruct (take C (now s) 1 (bk s ip)) as [b ok]. cbn [fst snd].
   destruct ok; pair_inv H; cbn [bk set_bk]; rewrite upd_same; split; auto; split; intros; congruence.
 Qed.
+
+(* ------------------------------------------------------------------------------------------- *)
+(* the ban is per ADDRESS, the pending challenge per CONNECTION: gate 2 must be evaluated on    *)
+(* every handshake message.  Variant with the gate skipped for phase-2 messages: one address    *)
+(* collects a challenge on two connections, fails twice (maxf = 2: banned), and the correct     *)
+(* response on the second connection is still accepted (result 4) while the address is banned   *)
+(* ------------------------------------------------------------------------------------------- *)
+Definition skip_p2_variant : variant :=
+  {| cond_unban := true; keep_stronger := true; anon_resets := false; skip_gate_p2 := true; first_match := 0%N |}.
+Definition wit7_threads : list lo :=
+  [LProg PIdle [CHs 7 (HP1 1); CHs 7 (HP1 2); CHs 7 (HP2 1 false); CHs 7 HBad; CHs 7 (HP2 2 true); CQuery 7] []].
+Lemma gate_skipped_on_phase2_refuted :
+  exists C ip threads sched,
+    let s2 := runs skip_p2_variant C (init_sh, threads) sched in
+    maxf C = 2 /\ now (fst s2) = 0 /\ is_banned (fst s2) ip = true /\
+    nth_error (snd s2) 0 = Some (LProg PIdle [] [5; 5; 3; 3; 4; 1]%N).
+Proof.
+  exists wit_cfg, 7%N, wit7_threads, (repeat O 20). vm_compute. repeat split; reflexivity.
+Qed.
+Lemma gate_on_every_message_same_schedule :
+  let s2 := runs current_variant wit_cfg (init_sh, wit7_threads) (repeat O 20) in
+  nth_error (snd s2) 0 = Some (LProg PIdle [] [5; 5; 3; 3; 1; 1]%N).
+Proof. vm_compute. reflexivity. Qed.
